@@ -9,8 +9,9 @@ Helper lemmas for C10: the optimisers built on a search along a direction — `P
   invariant says `Off` (the function agrees with `pt0` outside the optimised names) and not `Sync`;
   `optimize` ends on an evaluation at the optimiser's parameters.
 * conjugate gradient: `Coord.Inv` is kept and the value never increases (`cgDoStep_spec`).
-* BFGS: `Coord.Inv` is kept; a step ends no higher than it began *or* sets the tolerance flag
-  ("!!! Function increase !!!", `bfgsDoStep_spec`).
+* BFGS (repaired): `Coord.Inv` is kept and a step ends no higher than the current value — a trial that
+  ends higher ("!!! Function increase !!!") is given up, the step goes back to the point it started from
+  and sets the tolerance flag (`bfgsDoStep_spec`).
 -/
 set_option linter.unusedSectionVars false
 namespace Bpp.Optim
@@ -366,12 +367,16 @@ theorem cgDoStep_spec (len : Nat) (ns : List Nat) (hns : ns.Nodup ∧ ∀ n ∈ 
 /-! ### BFGS -/
 
 /-- the shape of `BfgsMultiDimensions::doStep`: a line search, an evaluation at the parameters it
-returns, the test "!!! Function increase !!!"; what follows touches the optimiser's own vectors only -/
+returns; then either the value is not above the current value and what follows touches the optimiser's
+own vectors only, or ("!!! Function increase !!!", repaired) the parameters are set back to the values
+the step started from, the function is evaluated there and the tolerance flag is set -/
 theorem bfgsDoStep_shape {F : Type} (I : FunI F ℝ) (fuel : Nat) (s s' : St F (Bfgs ℝ) ℝ) (v : ℝ)
     (h : bfgsDoStep I fuel s = .ok (s', v)) :
-    ∃ xi gr fn1 pl xi' k, lineSearch I fuel s.fn s.core.params xi gr = .ok (fn1, pl, xi', k) ∧
-      I.f fn1 pl = .ok (s'.fn, v) ∧ s'.core.params = pl ∧
-      (v ≤ s.core.cur ∨ (s.core.cur < v ∧ s'.core.tol = true)) := by
+    ∃ xi gr fn1 pl xi' k fn2 f, lineSearch I fuel s.fn s.core.params xi gr = .ok (fn1, pl, xi', k) ∧
+      I.f fn1 pl = .ok (fn2, f) ∧
+      ((f ≤ s.core.cur ∧ s'.fn = fn2 ∧ s'.core.params = pl ∧ v = f) ∨
+       (s.core.cur < f ∧ ∃ pl0, setAll pl (values s.core.params) = .ok pl0 ∧ I.f fn2 pl0 = .ok (s'.fn, v) ∧
+          s'.core.params = pl0 ∧ s'.core.tol = true)) := by
   unfold bfgsDoStep at h
   simp only [] at h
   split at h
@@ -381,78 +386,71 @@ theorem bfgsDoStep_shape {F : Type} (I : FunI F ℝ) (fuel : Nat) (s s' : St F (
     split at h
     · cases h
     · rename_i fn2 f hf
-      refine ⟨_, _, fn1, pl, xi', k, hl, ?_⟩
+      refine ⟨_, _, fn1, pl, xi', k, fn2, f, hl, hf, ?_⟩
       try simp only [] at h
       split at h
       · rename_i hgt
-        simp only [Except.ok.injEq, Prod.mk.injEq] at h
-        obtain ⟨rfl, rfl⟩ := h
-        exact ⟨hf, rfl, Or.inr ⟨(ScalarReal.gtb_iff _ _).1 hgt, rfl⟩⟩
+        right
+        refine ⟨(ScalarReal.gtb_iff _ _).1 hgt, ?_⟩
+        split at h
+        · cases h
+        · rename_i pl0 hsa
+          try simp only [] at h
+          split at h
+          · cases h
+          · rename_i fn3 f0 hf0
+            simp only [Except.ok.injEq, Prod.mk.injEq] at h
+            obtain ⟨rfl, rfl⟩ := h
+            exact ⟨pl0, hsa, hf0, rfl, rfl⟩
       · rename_i hgt
         have hle : f ≤ s.core.cur := by
           by_contra hc
           exact hgt ((ScalarReal.gtb_iff _ _).2 (not_le.1 hc))
+        left
         repeat' (split at h)
         all_goals first
-          | (simp only [Except.ok.injEq, Prod.mk.injEq] at h; obtain ⟨rfl, rfl⟩ := h; exact ⟨hf, rfl, Or.inl hle⟩)
+          | (simp only [Except.ok.injEq, Prod.mk.injEq] at h; obtain ⟨rfl, rfl⟩ := h; exact ⟨hle, rfl, rfl, rfl⟩)
           | cases h
 
-/-- **`BfgsMultiDimensions::doStep`** keeps `Coord.Inv`, returns the objective at the point the function
-is left at, and either that value is not above the optimiser's current value or the step has set the
-tolerance flag ("!!! Function increase !!!") -/
+/-- **`BfgsMultiDimensions::doStep`** (repaired) from a state in which the function holds the optimiser's
+parameters and the current value is the objective there: `Coord.Inv` is kept, the value returned is the
+objective at the point the function is left at, and it is not above the current value — a trial that
+ends higher is given up: the step goes back to the values it started from (which the parameters accept
+as they are), evaluates there, and sets the tolerance flag -/
 theorem bfgsDoStep_spec (len : Nat) (ns : List Nat) (hns : ns.Nodup ∧ ∀ n ∈ ns, n < len) (fuel : Nat)
-    (s s' : St (Fn ℝ) (Bfgs ℝ) ℝ) (v : ℝ) (hi : Coord.Inv len ns s)
+    (s s' : St (Fn ℝ) (Bfgs ℝ) ℝ) (v : ℝ) (hi : Coord.Inv len ns s) (hcur : s.core.cur = obj s.fn.point)
     (h : bfgsDoStep (Fn.iface obj D cap) fuel s = .ok (s', v)) :
-    Coord.Inv len ns s' ∧ v = obj s'.fn.point ∧ (v ≤ s.core.cur ∨ (s.core.cur < v ∧ s'.core.tol = true)) := by
-  obtain ⟨xi, gr, fn1, pl, xi', k, hl, hf, hp, hor⟩ := bfgsDoStep_shape _ fuel s s' v h
+    Coord.Inv len ns s' ∧ v = obj s'.fn.point ∧ v ≤ s.core.cur := by
+  obtain ⟨xi, gr, fn1, pl, xi', k, fn2, f, hl, hf, hor⟩ := bfgsDoStep_shape _ fuel s s' v h
   obtain ⟨a, b⟩ := lineSearch_spec obj D cap fuel s.fn fn1 s.core.params pl xi gr xi' k hi.good hl
-  obtain ⟨m1, m2, m3, m4, m5, -⟩ := moved_eval obj D cap len ns hns s.fn fn1 s'.fn s.core.params pl v
+  obtain ⟨m1, m2, m3, m4, m5, m6⟩ := moved_eval obj D cap len ns hns s.fn fn1 fn2 s.core.params pl f
     hi.good hi.names hi.len a b hf
-  exact ⟨⟨by rw [hp]; exact m1, by rw [hp]; exact m2, by rw [hp]; exact m3, m4⟩, m5, hor⟩
+  rcases hor with ⟨hle, e1, e2, e3⟩ | ⟨_, pl0, hsa, hf0, e2, _⟩
+  · subst e3
+    exact ⟨⟨by rw [e2]; exact m1, by rw [e2]; exact m2, by rw [e1, e2]; exact m3, by rw [e1]; exact m4⟩,
+      by rw [e1]; exact m5, hle⟩
+  · -- back to the start of the step
+    have hlk0 : Like pl pl0 := setAll_like pl _ pl0 m1 hsa
+    have hn0 : names pl0 = ns := (setAll_names pl _ pl0 hsa).trans m2
+    have hv0 : values pl0 = values s.core.params :=
+      setAll_values (Like.accepts_values a (Like.refl hi.good)) pl0 m1 hsa
+    have hnamed : Named pl0 fn2.point.length := ⟨by rw [hn0]; exact hns.1, by rw [hn0, m4]; exact hns.2⟩
+    obtain ⟨e1, e2', e3, e4⟩ := eval_sync obj D cap fn2 s'.fn pl0 v hnamed hf0
+    have hpt : s'.fn.point = s.fn.point := by
+      rw [e4, matchPoint_nv fn2.point pl0 s.core.params (hn0.trans hi.names.symm) hv0, m6, b]
+      rw [matchPoint_congr s.core.params (matchPoint s.fn.point pl) s.fn.point (matchPoint_length _ _)
+        (fun i hi' => matchPoint_frame pl s.fn.point i (by rw [m2, ← hi.names]; exact hi'))]
+      exact matchPoint_of_sync _ _ hi.sync
+    refine ⟨⟨by rw [e2]; exact hlk0.good m1, by rw [e2]; exact hn0, by rw [e2]; exact e2', e3.trans m4⟩, e1, ?_⟩
+    rw [e1, hpt, hcur]
 
-/-- the invariant of a BFGS run: `Coord.Inv`, the current value is the objective at the function's
-point, and it is not above `B` as long as the tolerance flag is not set -/
-structure Bfgs.Run (B : ℝ) (len : Nat) (ns : List Nat) (s : St (Fn ℝ) (Bfgs ℝ) ℝ) : Prop where
-  coord : Coord.Inv len ns s
-  cur : s.core.cur = obj s.fn.point
-  below : s.core.tol = false → s.core.cur ≤ B
-
-theorem Bfgs.Run.of_eq {B : ℝ} {len : Nat} {ns : List Nat} {s t : St (Fn ℝ) (Bfgs ℝ) ℝ} (hc : Coord.Inv len ns s)
-    (hcur : s.core.cur = obj s.fn.point) (hb : s.core.cur ≤ B)
-    (hf : t.fn = s.fn) (hp : t.core.params = s.core.params) (hcc : t.core.cur = s.core.cur) : Bfgs.Run obj B len ns t :=
-  ⟨⟨by rw [hp]; exact hc.good, by rw [hp]; exact hc.names, by rw [hf, hp]; exact hc.sync, by rw [hf]; exact hc.len⟩,
-   by rw [hcc, hf]; exact hcur, fun _ => by rw [hcc]; exact hb⟩
-
-/-- a step of the template begun with the flag not set -/
-theorem bfgs_step_run (B : ℝ) (len : Nat) (ns : List Nat) (hns : ns.Nodup ∧ ∀ n ∈ ns, n < len) (fuel : Nat)
-    (s s' : St (Fn ℝ) (Bfgs ℝ) ℝ) (v : ℝ) (hi : Bfgs.Run obj B len ns s) (hg : Guard s)
-    (h : (bfgsAlgo (Fn.iface obj D cap) fuel).step s = .ok (s', v)) :
-    Bfgs.Run obj B len ns s' ∧ s'.core.cur = v ∧ (v ≤ s.core.cur ∨ s.core.cur < v) := by
-  obtain ⟨s1, hd1, hc⟩ := step_cases _ s h
-  obtain ⟨a, b, c⟩ := bfgsDoStep_spec obj D cap len ns hns fuel s s1 v hi.coord hd1
-  have hB := hi.below hg.2
-  rcases hc with ⟨ht, rfl⟩ | ⟨ht, rfl⟩
-  · refine ⟨⟨⟨a.good, a.names, a.sync, a.len⟩, b, fun hf => ?_⟩, rfl, le_or_gt _ _⟩
-    have : s1.core.tol = false := hf
-    rw [ht] at this; cases this
-  · have hv : v ≤ s.core.cur := by
-      rcases c with c | ⟨_, c⟩
-      · exact c
-      · rw [ht] at c; cases c
-    have hs := fscStop_same ({ s1 with core := { s1.core with cur := v } } : St (Fn ℝ) (Bfgs ℝ) ℝ)
-    exact ⟨Bfgs.Run.of_eq obj (s := ({ s1 with core := { s1.core with cur := v } } : St (Fn ℝ) (Bfgs ℝ) ℝ))
-      ⟨a.good, a.names, a.sync, a.len⟩ b (le_trans hv hB) hs.1 hs.2.1 hs.2.2.1, hs.2.2.1, Or.inl hv⟩
-
-/-- **`BfgsMultiDimensions`: `optimize`** from a state that satisfies `Multi.Inv`: the value returned is
-the objective at the point the function is left at, which holds the optimiser's parameters, and either
-it is not above `B`, or the run ended on a step that began not above `B` and ended higher — the case in
-which `doStep` prints "!!! Function increase !!!" and sets the tolerance flag -/
+/-- **`BfgsMultiDimensions`: `optimize`** (repaired) from a state that satisfies `Multi.Inv` keeps it and
+returns the current value (`multi_optimize_spec` does not apply as it stands: the descent of a BFGS step
+is relative to the optimiser's current value, which the invariant of the run ties to the function) -/
 theorem bfgs_optimize_spec (B : ℝ) (len : Nat) (ns : List Nat) (hns : ns.Nodup ∧ ∀ n ∈ ns, n < len) (fuel fuel' : Nat)
     (s s2 : St (Fn ℝ) (Bfgs ℝ) ℝ) (v : ℝ) (hi : Multi.Inv obj B len ns s)
     (h : (bfgsAlgo (Fn.iface obj D cap) fuel).optimize fuel' s = .ok (s2, v)) :
-    Coord.Inv len ns s2 ∧ v = obj s2.fn.point ∧ s2.core.cur = v ∧
-    (v ≤ B ∨ ∃ sb sa, Guard sb ∧ sb.core.cur ≤ B ∧ (bfgsAlgo (Fn.iface obj D cap) fuel).step sb = .ok (sa, v) ∧
-      sb.core.cur < v ∧ s2 = bump sa) := by
+    Multi.Inv obj B len ns s2 ∧ s2.core.cur = v := by
   unfold Algo.optimize at h
   split at h
   · cases h
@@ -461,34 +459,30 @@ theorem bfgs_optimize_spec (B : ℝ) (len : Nat) (ns : List Nat) (hns : ns.Nodup
     · rename_i sL hl
       simp only [Except.ok.injEq, Prod.mk.injEq] at h
       obtain ⟨rfl, rfl⟩ := h
-      have hstart : Bfgs.Run obj B len ns ({ s with core := { s.core with tol := false, nbEval := 1 } } : St (Fn ℝ) (Bfgs ℝ) ℝ) :=
-        ⟨⟨hi.coord.good, hi.coord.names, hi.coord.sync, hi.coord.len⟩, hi.cur, fun _ => hi.below⟩
-      have hstep : ∀ (u u' : St (Fn ℝ) (Bfgs ℝ) ℝ) (w : ℝ), Bfgs.Run obj B len ns u → Guard u →
-          (bfgsAlgo (Fn.iface obj D cap) fuel).step u = .ok (u', w) → Bfgs.Run obj B len ns u' :=
-        fun u u' w hu hg hst => (bfgs_step_run obj D cap B len ns hns fuel u u' w hu hg hst).1
-      have hbump : ∀ u : St (Fn ℝ) (Bfgs ℝ) ℝ, Bfgs.Run obj B len ns u → Bfgs.Run obj B len ns (bump u) :=
-        fun u hu => ⟨⟨hu.coord.good, hu.coord.names, hu.coord.sync, hu.coord.len⟩, hu.cur, hu.below⟩
-      have hL : Bfgs.Run obj B len ns sL := loop_invariant _ _ hstep hbump fuel' _ _ hstart hl
-      refine ⟨hL.coord, hL.cur, rfl, ?_⟩
-      rcases loop_last_step_inv _ _ hstep hbump fuel' _ _ hstart hl with rfl | ⟨sb, sa, w, hib, hgb, hst, rfl⟩
-      · exact Or.inl hi.below
-      · obtain ⟨-, hcur, hor⟩ := bfgs_step_run obj D cap B len ns hns fuel sb sa w hib hgb hst
-        have hw : (bump sa).core.cur = w := hcur
-        rw [hw]
-        rcases hor with hle | hlt
-        · exact Or.inl (le_trans hle (hib.below hgb.2))
-        · exact Or.inr ⟨sb, sa, hgb, hib.below hgb.2, hst, hlt, rfl⟩
+      refine ⟨?_, rfl⟩
+      refine loop_invariant _ (Multi.Inv obj B len ns) ?_ (fun u hu => hu.congr obj rfl rfl rfl) fuel' _ _ ?_ hl
+      · intro u u' w hu _ hst
+        obtain ⟨u1, hd1, hc⟩ := step_cases _ u hst
+        obtain ⟨a, b, c⟩ := bfgsDoStep_spec obj D cap len ns hns fuel u u1 w hu.coord hu.cur hd1
+        have h1 : Multi.Inv obj B len ns ({ u1 with core := { u1.core with cur := w } } : St (Fn ℝ) (Bfgs ℝ) ℝ) :=
+          ⟨⟨a.good, a.names, a.sync, a.len⟩, b, le_trans c hu.below⟩
+        rcases hc with ⟨_, rfl⟩ | ⟨_, rfl⟩
+        · exact h1
+        · have hs := fscStop_same ({ u1 with core := { u1.core with cur := w } } : St (Fn ℝ) (Bfgs ℝ) ℝ)
+          exact h1.congr obj hs.1 hs.2.1 hs.2.2.1
+      · exact hi.congr obj rfl rfl rfl
 
-/-! ### a run of BFGS that ends above its starting value
+/-! ### the input on which BFGS used to end above its starting value
 
 The same program text at `Rat` (exact arithmetic; the transcendental functions of that instance are
 never reached on this run): two parameters, `x0 ∈ [0, 10]` at its upper bound and `x1` free at 0, the
 objective `-10⁶ (x0 - 10) + 5·10⁻⁴ x1 - 2.9998 x1²` with its true derivatives.  `setDirection` replaces
 the component `+10⁶` of the Newton direction by `Up - p = -TINY` (the parameter is within `TINY` of its
 bound), the slope handed to the line search is `10⁶ · TINY - 2.5·10⁻⁷ > 0`, the first trial has the value
-`≈ 5·10⁻¹¹ > 0`, which the acceptance test `f ≤ fold + 10⁻⁴ λ slope` lets through; `doStep` then finds
-`f > currentValue_`, sets the tolerance flag and returns the higher value. -/
-namespace BfgsWitness
+`≈ 5·10⁻¹¹ > 0`, which the acceptance test `f ≤ fold + 10⁻⁴ λ slope` lets through.  Before the repair
+(findings/C10.json, corpus/C10/bfgs_increase.txt) `doStep` set the tolerance flag and returned that
+higher value; now it goes back to the point the step started from. -/
+namespace BfgsExample
 
 def objective (pt : List Rat) : Rat :=
   (0 - 1000000) * (pt.getD 0 0 - 10) + (5 / 10000) * pt.getD 1 0 - (29998 / 10000) * pt.getD 1 0 * pt.getD 1 0
@@ -503,19 +497,21 @@ def params : PList Rat :=
 def start : St (Fn Rat) (Bfgs Rat) Rat :=
   { core := freshCore 100 (1 / 1000000) 0, fn := ⟨[10, 0], []⟩, ext := Bfgs.fresh }
 
-/-- the list is feasible, `init` and `optimize` return, the value returned is above the value at the
-start, and the tolerance flag is set -/
-def increased : Bool :=
+/-- the list is feasible, `init` and `optimize` return, the increase has been seen (the tolerance flag is
+set), the value returned is not above the value at the start, and the function is back at the start -/
+def backAtStart : Bool :=
   feasibleList params &&
   match (bfgsAlgo (Fn.iface objective deriv none) 1000).init start params with
   | .error _ => false
   | .ok s1 =>
     match (bfgsAlgo (Fn.iface objective deriv none) 1000).optimize 1000 s1 with
     | .error _ => false
-    | .ok (s2, v) => decide (s1.core.cur = objective [10, 0]) && decide (objective [10, 0] < v) && s2.core.tol
+    | .ok (s2, v) =>
+      decide (s1.core.cur = objective [10, 0]) && decide (v ≤ objective [10, 0]) && s2.core.tol &&
+      decide (s2.fn.point = [10, 0])
 
-theorem increased_true : increased = true := by decide +kernel
+theorem backAtStart_true : backAtStart = true := by decide +kernel
 
-end BfgsWitness
+end BfgsExample
 
 end Bpp.Optim
